@@ -4,17 +4,19 @@
 
   Transcribes, from psutil/__init__.py: `Process._init`, `_get_ident`, `create_time` (memoised),
   `__eq__`, `__hash__`, `is_running`, `_raise_if_pid_reused`, `_send_signal`, `suspend/resume/
-  terminate/kill/send_signal`, the setting forms of `nice/ionice/rlimit/cpu_affinity`, `ppid`;
-  from psutil/_pslinux.py: `boot_time` (rewrites the module-level `BOOT_TIME`), `Process.create_time`
-  (`BOOT_TIME or boot_time()`), and the ESRCH/ENOENT → NoSuchProcess translation of the platform
-  setters.  The kernel is simulated: a process table of incarnations, a strictly increasing tick
-  clock that stamps every new process, and a published boot time that clock adjustments move.
+  terminate/kill/send_signal`, the setting forms of `nice/ionice/rlimit/cpu_affinity`, `ppid`,
+  `process_iter` (as far as it touches the identity machinery);
+  from psutil/_pslinux.py: `boot_time` (writes the module-level `BOOT_TIME`), `Process.create_time`
+  (`BOOT_TIME or boot_time()`), the argument checks of `ionice_set` / `rlimit`, and the
+  ESRCH/ENOENT → NoSuchProcess translation of `wrap_exceptions`.
+  The kernel is simulated: a process table of incarnations, a strictly increasing tick clock that
+  stamps every new process, and a published boot time that clock adjustments move.
 -/
 namespace Psutil.C01
 
-/-- one incarnation of a PID; `start` (clock ticks since boot) is unique per incarnation because
-    the kernel clock advances at every spawn — psutil's documented assumption that a PID is not
-    recycled within one clock tick -/
+/-- one incarnation of a PID; `start` (clock ticks since boot, field 22 of /proc/pid/stat) is unique
+    per incarnation because the kernel clock advances at every spawn — psutil's documented
+    assumption that a PID is not recycled within one clock tick -/
 structure Inst where
   pid : Nat
   start : Nat
@@ -38,6 +40,9 @@ inductive KEv
 
 def Kernel.find (k : Kernel) (pid : Nat) : Option Inst := k.procs.find? (·.pid == pid)
 
+/-- `start` of the incarnation that owns `pid` right now -/
+def Kernel.owner (k : Kernel) (pid : Nat) : Option Nat := (k.find pid).map (·.start)
+
 def Kernel.apply (k : Kernel) : KEv → Kernel
   | .spawn pid =>
     match k.find pid with
@@ -53,6 +58,7 @@ structure Cfg where
   clk : Nat                    -- CLOCK_TICKS
   goneRaises : Bool            -- `_raise_if_pid_reused` raises NoSuchProcess when `_gone` is already set
   bootWriteOnce : Bool         -- `boot_time()` assigns BOOT_TIME only while it is unset
+  createUsesCache : Bool       -- `create_time()` computes `BOOT_TIME or boot_time()` (not a fresh `boot_time()`)
   guardSignal : Bool           -- `_send_signal` calls `_raise_if_pid_reused()` before `os.kill`
   guardNice : Bool
   guardIonice : Bool
@@ -61,25 +67,28 @@ structure Cfg where
   guardPpid : Bool
   pid0Refused : Bool           -- `_send_signal` raises ValueError for pid 0 before `os.kill`
   negRejected : Bool           -- `_init` raises ValueError for pid < 0
+  rlimitPid0Refused : Bool     -- `_pslinux.Process.rlimit` raises ValueError for pid 0 before `prlimit`
   sigStop : Nat                -- suspend() → this signal number
   sigCont : Nat
   sigTerm : Nat
   sigKill : Nat
+  ioNoValue : List Int         -- ioclasses that accept no value (IOPRIO_CLASS_IDLE, IOPRIO_CLASS_NONE)
   deriving Repr
 
 /-- a `psutil.Process` object -/
 structure PObj where
   pid : Nat
-  ident : Option Nat      -- 2nd component of `_ident`, as `start + clk·boot` (exact; `none` = `(pid, None)`)
+  ident : Nat             -- 2nd component of `_ident`, scaled by CLOCK_TICKS: `start + clk·boot` (exact)
   gone : Bool
   reused : Bool
-  ghost : Option Nat      -- SPEC ONLY: `start` of the incarnation that owned the PID when the object was built
+  ghost : Nat             -- SPEC ONLY: `start` of the incarnation that owned the PID when the object was built
   deriving DecidableEq, Repr
 
 structure Ps where
   bootTime : Option Nat   -- module-level `_pslinux.BOOT_TIME`
   objs : List PObj
-  pidsReused : List Nat   -- `_pids_reused` (consumed by process_iter; C04)
+  pidsReused : List Nat   -- `_pids_reused`
+  pmap : List Nat         -- PIDs cached in `_pmap` by process_iter
   deriving Repr
 
 inductive SetKind | nice | ionice | rlimit | affinity
@@ -93,7 +102,7 @@ structure Eff where
   kind : EffKind
   obj : Nat               -- index of the Process object that asked
   pid : Int               -- PID handed to the OS
-  arg : Int               -- signal number / encoded setter value handed to the OS
+  arg : List Int          -- signal number / setter values handed to the OS
   owner : Option Nat      -- SPEC ONLY: `start` of the incarnation owning that PID at that instant
   deriving DecidableEq, Repr
 
@@ -104,15 +113,16 @@ inductive Call
   | newObj (pid : Int)
   | isRunning (i : Nat)
   | signal (i : Nat) (m : SigMethod)
-  | setter (i : Nat) (k : SetKind) (arg : Int)
+  | setter (i : Nat) (k : SetKind) (args : List Int)
   | ppid (i : Nat)
   | bootTime
   | createTime (i : Nat)
   | eq (i j : Nat)
   | hash (i : Nat)
+  | processIter
   deriving DecidableEq, Repr
 
-inductive Exc | noSuchProcess (pid : Nat) | valueError | badIndex
+inductive Exc | noSuchProcess (pid : Int) | valueError | badCall
   deriving DecidableEq, Repr
 
 inductive Out
@@ -120,6 +130,8 @@ inductive Out
   | bool (b : Bool)
   | nat (n : Nat)
   | obj (i : Nat)
+  | ident (pid ct : Nat)       -- `hash()`: any function of the `_ident` tuple
+  | pids (l : List Nat)
   | exc (e : Exc)
   deriving DecidableEq, Repr
 
@@ -132,56 +144,62 @@ structure St where
   log : List Eff          -- newest first
   deriving Repr
 
-def St.init (btime : Nat) : St := ⟨⟨[], 0, btime⟩, ⟨none, [], []⟩, []⟩
+def St.init (btime : Nat) : St := ⟨⟨[], 0, btime⟩, ⟨none, [], [], []⟩, []⟩
 
-/-- `_pslinux.boot_time()`: read `btime`, (re)write `BOOT_TIME`, return it -/
+/-- `_pslinux.boot_time()`: read `btime`, write `BOOT_TIME`, return the live value -/
 def bootTimeCall (cfg : Cfg) (k : Kernel) (ps : Ps) : Ps × Nat :=
-  let ps' := if cfg.bootWriteOnce && ps.bootTime.isSome then ps else { ps with bootTime := some k.btime }
-  (ps', k.btime)
+  (if cfg.bootWriteOnce && ps.bootTime.isSome then ps else { ps with bootTime := some k.btime }, k.btime)
 
 /-- `bt = BOOT_TIME or boot_time()` -/
 def bootForCreate (cfg : Cfg) (k : Kernel) (ps : Ps) : Ps × Nat :=
-  match ps.bootTime with
-  | some b => if b ≠ 0 then (ps, b) else bootTimeCall cfg k ps
-  | none => bootTimeCall cfg k ps
+  if cfg.createUsesCache then
+    match ps.bootTime with
+    | some b => if b ≠ 0 then (ps, b) else bootTimeCall cfg k ps
+    | none => bootTimeCall cfg k ps
+  else bootTimeCall cfg k ps
 
-/-- `_pslinux.Process.create_time()` for whoever owns `pid` now (scaled by CLOCK_TICKS):
-    `none` = NoSuchProcess (no `/proc/pid/stat`) -/
-def platCreateTime (cfg : Cfg) (k : Kernel) (ps : Ps) (pid : Nat) : Ps × Option Nat :=
+/-- `Process(pid)`: the new object (not yet stored), or `none` = NoSuchProcess (no `/proc/pid/stat`;
+    `_parse_stat_file` fails before the boot time is looked at) -/
+def mkObj (cfg : Cfg) (k : Kernel) (ps : Ps) (pid : Nat) : Ps × Option PObj :=
   match k.find pid with
   | none => (ps, none)
   | some x =>
-    let (ps', b) := bootForCreate cfg k ps
-    (ps', some (x.start + cfg.clk * b))
-
-/-- `Process(pid)`: returns the new object (not yet stored) or the exception -/
-def mkObj (cfg : Cfg) (k : Kernel) (ps : Ps) (pid : Nat) : Ps × Except Exc PObj :=
-  match platCreateTime cfg k ps pid with
-  | (ps', none) => (ps', .error (.noSuchProcess pid))
-  | (ps', some ct) => (ps', .ok ⟨pid, some ct, false, false, (k.find pid).map (·.start)⟩)
+    let r := bootForCreate cfg k ps
+    (r.1, some ⟨pid, x.start + cfg.clk * r.2, false, false, x.start⟩)
 
 def setObj (ps : Ps) (i : Nat) (o : PObj) : Ps := { ps with objs := ps.objs.set i o }
 
-/-- `Process.is_running()` on object `i` (already looked up as `o`) -/
-def isRunning (cfg : Cfg) (k : Kernel) (ps : Ps) (i : Nat) (o : PObj) : Ps × Bool :=
-  if o.gone || o.reused then (ps, false)
+/-- result of a method call on one object: new module state, new object state, at most one OS
+    effect, outcome -/
+structure MRes where
+  ps : Ps
+  o : PObj
+  eff : Option (EffKind × Int × List Int × Option Nat)     -- kind, pid, args, (spec) owner
+  out : Out
+
+/-- `Process.is_running()` -/
+def isRunningO (cfg : Cfg) (k : Kernel) (ps : Ps) (o : PObj) : Ps × PObj × Bool :=
+  if o.gone || o.reused then (ps, o, false)
   else
     match mkObj cfg k ps o.pid with
-    | (ps', .error _) => (setObj ps' i { o with gone := true }, false)
-    | (ps', .ok fresh) =>
+    | (ps', none) => (ps', { o with gone := true }, false)
+    | (ps', some fresh) =>
       if o.ident ≠ fresh.ident then
-        (setObj { ps' with pidsReused := o.pid :: ps'.pidsReused } i { o with reused := true, gone := true }, false)
-      else (ps', true)
+        ({ ps' with pidsReused := o.pid :: ps'.pidsReused }, { o with reused := true, gone := true }, false)
+      else (ps', o, true)
 
 /-- `Process._raise_if_pid_reused()`: `true` = raises NoSuchProcess -/
-def raiseIfPidReused (cfg : Cfg) (k : Kernel) (ps : Ps) (i : Nat) (o : PObj) : Ps × Bool :=
-  if o.reused then (ps, true)
+def raiseIfPidReusedO (cfg : Cfg) (k : Kernel) (ps : Ps) (o : PObj) : Ps × PObj × Bool :=
+  if o.reused then (ps, o, true)
   else
-    let (ps', running) := isRunning cfg k ps i o
-    let o' := (ps'.objs[i]?).getD o
-    if !running && o'.reused then (ps', true)
-    else if cfg.goneRaises && o'.gone then (ps', true)
-    else (ps', false)
+    let r := isRunningO cfg k ps o
+    if !r.2.2 && r.2.1.reused then (r.1, r.2.1, true)
+    else if cfg.goneRaises && r.2.1.gone then (r.1, r.2.1, true)
+    else (r.1, r.2.1, false)
+
+/-- run the guard if the method has one -/
+def guardedO (cfg : Cfg) (has : Bool) (k : Kernel) (ps : Ps) (o : PObj) : Ps × PObj × Bool :=
+  if has then raiseIfPidReusedO cfg k ps o else (ps, o, false)
 
 def sigOf (cfg : Cfg) : SigMethod → Nat
   | .send s => s
@@ -196,75 +214,123 @@ def guardOf (cfg : Cfg) : SetKind → Bool
   | .rlimit => cfg.guardRlimit
   | .affinity => cfg.guardAffinity
 
-/-- run the guard if the method has one -/
-def guarded (cfg : Cfg) (has : Bool) (k : Kernel) (ps : Ps) (i : Nat) (o : PObj) : Ps × Bool :=
-  if has then raiseIfPidReused cfg k ps i o else (ps, false)
+/-- `_send_signal(sig)` -/
+def signalM (cfg : Cfg) (k : Kernel) (ps : Ps) (o : PObj) (m : SigMethod) : MRes :=
+  let g := guardedO cfg cfg.guardSignal k ps o
+  if g.2.2 then ⟨g.1, g.2.1, none, .exc (.noSuchProcess o.pid)⟩
+  else if o.pid == 0 && cfg.pid0Refused then ⟨g.1, g.2.1, none, .exc .valueError⟩
+  else
+    match k.find o.pid with
+    | none =>    -- os.kill → ESRCH: `_gone = True`, NoSuchProcess
+      ⟨g.1, { g.2.1 with gone := true }, none, .exc (.noSuchProcess o.pid)⟩
+    | some x => ⟨g.1, g.2.1, some (.kill, o.pid, [(sigOf cfg m : Int)], some x.start), .unit⟩
+
+def insertSorted (a : Int) : List Int → List Int
+  | [] => [a]
+  | b :: bs => if a < b then a :: b :: bs else if a = b then b :: bs else b :: insertSorted a bs
+
+/-- `list(set(cpus))`, canonically ordered (the recorder sorts what it receives) -/
+def canonSet (l : List Int) : List Int := l.foldr insertSorted []
+
+/-- the platform setter's own argument handling: `none` = ValueError, `some a` = values handed to the OS -/
+def setterArgs (cfg : Cfg) (pid : Nat) : SetKind → List Int → Option (Option (List Int))
+  | .nice, [v] => some (some [v])
+  | .ionice, [c] => some (some [c, 0])                      -- `value is None` → 0
+  | .ionice, [c, v] =>
+    if v ≠ 0 && cfg.ioNoValue.contains c then some none     -- "ioclass accepts no value"
+    else if v < 0 || v > 7 then some none                   -- "value not in 0-7 range"
+    else some (some [c, v])
+  | .rlimit, r :: lim =>
+    if pid == 0 && cfg.rlimitPid0Refused then some none     -- "can't use prlimit() against PID 0 process"
+    else if lim.length ≠ 2 then some none                   -- "second argument must be a (soft, hard) tuple"
+    else some (some (r :: lim))
+  | .affinity, c :: cs => some (some (canonSet (c :: cs)))
+  | _, _ => none                                            -- not a call shape the harness produces
+
+/-- setting form of `nice / ionice / rlimit / cpu_affinity` -/
+def setterM (cfg : Cfg) (k : Kernel) (ps : Ps) (o : PObj) (kind : SetKind) (args : List Int) : MRes :=
+  match setterArgs cfg o.pid kind args with
+  | none => ⟨ps, o, none, .exc .badCall⟩
+  | some checked =>
+    let g := guardedO cfg (guardOf cfg kind) k ps o
+    if g.2.2 then ⟨g.1, g.2.1, none, .exc (.noSuchProcess o.pid)⟩
+    else
+      match checked with
+      | none => ⟨g.1, g.2.1, none, .exc .valueError⟩
+      | some a =>
+        match k.find o.pid with
+        | none => ⟨g.1, g.2.1, none, .exc (.noSuchProcess o.pid)⟩      -- ESRCH → wrap_exceptions
+        | some x => ⟨g.1, g.2.1, some (.set kind, o.pid, a, some x.start), .unit⟩
+
+/-- `ppid()`: guarded query (the value itself is C05's subject) -/
+def ppidM (cfg : Cfg) (k : Kernel) (ps : Ps) (o : PObj) : MRes :=
+  let g := guardedO cfg cfg.guardPpid k ps o
+  if g.2.2 then ⟨g.1, g.2.1, none, .exc (.noSuchProcess o.pid)⟩
+  else
+    match k.find o.pid with
+    | none => ⟨g.1, g.2.1, none, .exc (.noSuchProcess o.pid)⟩
+    | some _ => ⟨g.1, g.2.1, none, .unit⟩
+
+def isRunningM (cfg : Cfg) (k : Kernel) (ps : Ps) (o : PObj) : MRes :=
+  let r := isRunningO cfg k ps o
+  ⟨r.1, r.2.1, none, .bool r.2.2⟩
+
+/-- method calls on object `i` -/
+def method (cfg : Cfg) (k : Kernel) (ps : Ps) (o : PObj) : Call → Option MRes
+  | .isRunning _ => some (isRunningM cfg k ps o)
+  | .signal _ m => some (signalM cfg k ps o m)
+  | .setter _ kind args => some (setterM cfg k ps o kind args)
+  | .ppid _ => some (ppidM cfg k ps o)
+  | .createTime _ => some ⟨ps, o, none, .nat o.ident⟩         -- memoised `_create_time`
+  | .hash _ => some ⟨ps, o, none, .ident o.pid o.ident⟩        -- memoised `hash(self._ident)`
+  | _ => none
+
+def Call.target : Call → Option Nat
+  | .isRunning i | .signal i _ | .setter i _ _ | .ppid i | .createTime i | .hash i => some i
+  | _ => none
+
+/-- `process_iter()` run to exhaustion: drops cached entries whose PID is gone or flagged reused,
+    builds a `Process` for every PID not cached (which may initialise `BOOT_TIME`), yields one
+    object per listed PID -/
+def processIter (cfg : Cfg) (k : Kernel) (ps : Ps) : Ps × List Nat :=
+  let table := k.procs.map (·.pid)
+  let pm := (ps.pmap.filter fun p => table.contains p).filter fun p => !ps.pidsReused.contains p
+  let new := table.filter fun p => !pm.contains p
+  let ps1 := if new.isEmpty then ps else (bootForCreate cfg k ps).1
+  ({ ps1 with pmap := pm ++ new, pidsReused := [] }, table)
 
 def step (cfg : Cfg) (s : St) : Ev → St × Out
   | .k e => ({ s with kern := s.kern.apply e }, .unit)
   | .c call =>
-    let k := s.kern
     match call with
     | .newObj pid =>
       if pid < 0 then
         if cfg.negRejected then (s, .exc .valueError)
-        else (s, .exc (.noSuchProcess 0))     -- never modelled further: see Props (negRejected is an obligation)
+        else (s, .exc (.noSuchProcess pid))          -- no `/proc/-n`
       else
-        match mkObj cfg k s.ps pid.toNat with
-        | (ps', .error e) => ({ s with ps := ps' }, .exc e)
-        | (ps', .ok o) => ({ s with ps := { ps' with objs := ps'.objs ++ [o] } }, .obj ps'.objs.length)
-    | .isRunning i =>
-      match s.ps.objs[i]? with
-      | none => (s, .exc .badIndex)
-      | some o => let (ps', b) := isRunning cfg k s.ps i o; ({ s with ps := ps' }, .bool b)
-    | .signal i m =>
-      match s.ps.objs[i]? with
-      | none => (s, .exc .badIndex)
-      | some o =>
-        let (ps', raised) := guarded cfg cfg.guardSignal k s.ps i o
-        let o' := (ps'.objs[i]?).getD o
-        if raised then ({ s with ps := ps' }, .exc (.noSuchProcess o.pid))
-        else if o.pid = 0 && cfg.pid0Refused then ({ s with ps := ps' }, .exc .valueError)
-        else
-          match k.find o.pid with
-          | none =>    -- os.kill → ESRCH: `_gone = True`, NoSuchProcess
-            ({ s with ps := setObj ps' i { o' with gone := true } }, .exc (.noSuchProcess o.pid))
-          | some x =>
-            ({ s with ps := ps', log := ⟨.kill, i, o.pid, sigOf cfg m, some x.start⟩ :: s.log }, .unit)
-    | .setter i kind arg =>
-      match s.ps.objs[i]? with
-      | none => (s, .exc .badIndex)
-      | some o =>
-        let (ps', raised) := guarded cfg (guardOf cfg kind) k s.ps i o
-        if raised then ({ s with ps := ps' }, .exc (.noSuchProcess o.pid))
-        else
-          match k.find o.pid with
-          | none => ({ s with ps := ps' }, .exc (.noSuchProcess o.pid))   -- ESRCH → wrap_exceptions
-          | some x =>
-            ({ s with ps := ps', log := ⟨.set kind, i, o.pid, arg, some x.start⟩ :: s.log }, .unit)
-    | .ppid i =>
-      match s.ps.objs[i]? with
-      | none => (s, .exc .badIndex)
-      | some o =>
-        let (ps', raised) := guarded cfg cfg.guardPpid k s.ps i o
-        if raised then ({ s with ps := ps' }, .exc (.noSuchProcess o.pid))
-        else
-          match k.find o.pid with
-          | none => ({ s with ps := ps' }, .exc (.noSuchProcess o.pid))
-          | some _ => ({ s with ps := ps' }, .unit)
-    | .bootTime => let (ps', b) := bootTimeCall cfg k s.ps; ({ s with ps := ps' }, .nat b)
-    | .createTime i =>
-      match s.ps.objs[i]? with
-      | none => (s, .exc .badIndex)
-      | some o => (s, match o.ident with | some c => .nat c | none => .exc (.noSuchProcess o.pid))
+        match mkObj cfg s.kern s.ps pid.toNat with
+        | (ps', none) => ({ s with ps := ps' }, .exc (.noSuchProcess pid))
+        | (ps', some o) => ({ s with ps := { ps' with objs := ps'.objs ++ [o] } }, .obj ps'.objs.length)
+    | .bootTime => let r := bootTimeCall cfg s.kern s.ps; ({ s with ps := r.1 }, .nat r.2)
     | .eq i j =>
       match s.ps.objs[i]?, s.ps.objs[j]? with
       | some a, some b => (s, .bool (a.pid == b.pid && a.ident == b.ident))
-      | _, _ => (s, .exc .badIndex)
-    | .hash i =>
-      match s.ps.objs[i]? with
-      | none => (s, .exc .badIndex)
-      | some o => (s, .nat (o.pid + 1000003 * (o.ident.getD 0)))   -- any function of `_ident`
+      | _, _ => (s, .exc .badCall)
+    | .processIter => let r := processIter cfg s.kern s.ps; ({ s with ps := r.1 }, .pids r.2)
+    | call =>
+      match call.target with
+      | none => (s, .exc .badCall)
+      | some i =>
+        match s.ps.objs[i]? with
+        | none => (s, .exc .badCall)
+        | some o =>
+          match method cfg s.kern s.ps o call with
+          | none => (s, .exc .badCall)
+          | some r =>
+            (⟨s.kern, setObj r.ps i r.o,
+              match r.eff with
+              | none => s.log
+              | some (kind, pid, arg, owner) => ⟨kind, i, pid, arg, owner⟩ :: s.log⟩, r.out)
 
 def run (cfg : Cfg) (s : St) : List Ev → St
   | [] => s
